@@ -28,7 +28,11 @@ Inductive case :=
    events of each integration in order, whether the flush failed, and whether the real nflog holds an entry
    written by this flush for each integration *)
 | CFanout (alerts : list alert) (start dl : Z) (gs : list integ)
-          (obs_events : list (list event)) (obs_failed : bool) (obs_logged : list bool).
+          (obs_events : list (list event)) (obs_failed : bool) (obs_logged : list bool)
+(* the (Name, Index) pairs of the integrations receiver.BuildReceiverIntegrations built for ONE receiver: they key
+   the notification log (<receiver>/<name>/<idx>), so the chains of the fanout model are independent only if
+   the pairs are pairwise distinct; expected = the pairs the configuration asks for (kind stem, position) *)
+| CRecvKeys (expected built : list (string * Z)).
 
 Inductive shown :=
 | STrunc (o : res (string * bool))
@@ -36,7 +40,8 @@ Inductive shown :=
 | SData (d : data)
 | SWebhook (d : data * Z)
 | SRetry (r : retry_result)
-| SFanout (evs : list (list event)) (failed : bool) (logged : list bool).
+| SFanout (evs : list (list event)) (failed : bool) (logged : list bool)
+| SRecvKeys (distinct : bool) (as_configured : bool).
 
 (* ---- truncation ---- *)
 Definition trunc_model (in_bytes : bool) (s : string) (n : Z) : res (list Z * bool) :=
@@ -156,6 +161,7 @@ Definition check_case (c : case) : bool :=
     beq (r_attempts r) oatt && beq (r_err r) oerr && beq (r_out r) oout && (r_end r =? oend) &&
     match oatt with [] => true | _ => beq (r_sent r) osent end
   | CFanout al start dl gs oevs ofailed ologged => beq (fanout_model al start dl gs) (oevs, ofailed, ologged)
+  | CRecvKeys expected built => beq expected built
   end.
 
 Definition prop_case (c : case) : bool :=
@@ -173,6 +179,7 @@ Definition prop_case (c : case) : bool :=
   | CRetry sr fc al start dl script oatt _ _ _ _ =>
     retry_prop sr fc al start dl (retry_model sr fc al start dl script oatt)
   | CFanout al start dl gs _ _ _ => fanout_prop al start dl gs
+  | CRecvKeys expected _ => bool_decide (NoDup expected)
   end.
 
 Definition show_case (c : case) : shown :=
@@ -184,4 +191,5 @@ Definition show_case (c : case) : shown :=
   | CRetry sr fc al start dl script oatt _ _ _ _ => SRetry (retry_model sr fc al start dl script oatt)
   | CFanout al start dl gs _ _ _ =>
     let '(e, f, l) := fanout_model al start dl gs in SFanout e f l
+  | CRecvKeys expected built => SRecvKeys (bool_decide (NoDup built)) (beq expected built)
   end.
